@@ -15,6 +15,11 @@ static struct {
     long laps;
     int free_by_waiter; /* the first caller that returns from the last round frees the barrier at once */
     volatile int free_claimed;
+    /* a cancellation request reaches one ULT waiter of the last round while it is (about to be)
+     * blocked in the barrier: it stays counted, is released with everybody else and ends at its
+     * next scheduling point; everybody else returns */
+    int victim;
+    volatile int victim_entered, spawned, cancel_sent, victim_returned;
 } S;
 
 static void wait_flag(wl_actor *a, volatile int *f)
@@ -52,12 +57,16 @@ static void body(wl_actor *a)
         if (r > 0 && S.returned[r - 1] < S.nr[r - 1])
             S.laps++; /* re-entering while others are still leaving the previous round */
         S.arrived[r]++;
+        if (a->id == S.victim && r == S.R - 1)
+            S.victim_entered = 1;
         ABT_OK(ABT_barrier_wait(S.b));
         SIM_CHECK(S.arrived[r] == S.nr[r], "barrier:released-early", "actor %d returned from round %d after only %d of %d waiters had arrived", a->id, r, S.arrived[r],
                   S.nr[r]);
         if (r + 1 < S.R && !S.reinit_before[r + 1] && a->id < S.nr[r + 1])
             SIM_CHECK(S.arrived[r + 1] < S.nr[r + 1], "barrier:round-mixup", "round %d is complete before actor %d left round %d", r + 1, a->id, r);
         S.returned[r]++;
+        if (a->id == S.victim && r == S.R - 1)
+            S.victim_returned = 1;
         if (S.free_by_waiter && r == S.R - 1 && !S.free_claimed) {
             /* everybody has been released (some may still be on their way out of
              * ABT_barrier_wait, the last arriver possibly still waking the others): the barrier
@@ -70,6 +79,18 @@ static void body(wl_actor *a)
         for (int k = 0; k < (a->args[r] & 3); k++)
             wl_actor_pause(a, 1);
     }
+}
+
+static void canceller(void *arg)
+{
+    int pauses = (int)(long)arg;
+    while (!S.victim_entered || !S.spawned)
+        sim_yield();
+    for (int i = 0; i < pauses; i++)
+        sim_yield();
+    ABT_OK(ABT_thread_cancel(S.A[S.victim].th));
+    S.cancel_sent = 1;
+    sim_progress();
 }
 
 static void diag(char *buf, int sz)
@@ -110,7 +131,19 @@ static void run_c08(void)
             a->args[r] = (int)plan_n(16);
         sim_note(" %s@%d", wl_actor_kind_names[a->kind], a->pool);
     }
+    S.victim = -1;
+    int ctid = -1;
+    if (!S.free_by_waiter && plan_n(4) == 0) {
+        int v = (int)plan_n((uint32_t)S.nr[S.R - 1]);
+        if (S.A[v].kind == AK_ULT) {
+            S.victim = v;
+            S.A[v].cancelled_ok = 1;
+            sim_note(" cancel-waiter=%d", v);
+            ctid = sim_thread_create(canceller, (void *)(long)plan_n(60));
+        }
+    }
     wl_actors_spawn(rt, S.A, n);
+    S.spawned = 1;
     /* a tasklet only gets the documented error */
     wl_actor T;
     memset(&T, 0, sizeof T);
@@ -120,6 +153,12 @@ static void run_c08(void)
         T.pool = (int)plan_n((uint32_t)rt->npools);
         T.body = body;
         ntask = 1;
+    }
+    if (ctid >= 0) {
+        /* the victim's handle stays valid until the request has been issued */
+        while (!S.cancel_sent)
+            ABT_OK(ABT_thread_yield());
+        sim_thread_join(ctid);
     }
     wl_actors_join(rt, S.A, n);
     if (ntask) {
@@ -131,8 +170,12 @@ static void run_c08(void)
         wl_actors_join(rt, &T, 1);
         S.R = saveR;
     }
-    for (int r = 0; r < S.R; r++)
-        SIM_CHECK(S.returned[r] == S.nr[r], "barrier:missing-return", "round %d: %d of %d waiters returned", r, S.returned[r], S.nr[r]);
+    if (ctid >= 0)
+        sim_count("c08.waiters_cancelled_in_the_barrier", S.victim_returned ? 0 : 1);
+    for (int r = 0; r < S.R; r++) {
+        int missing = (S.victim >= 0 && r == S.R - 1 && !S.victim_returned) ? 1 : 0;
+        SIM_CHECK(S.returned[r] + missing == S.nr[r], "barrier:missing-return", "round %d: %d of %d waiters returned", r, S.returned[r], S.nr[r]);
+    }
     sim_count("c08.lapping_entries", (uint64_t)S.laps);
     if (!S.free_by_waiter)
         ABT_OK(ABT_barrier_free(&S.b));
